@@ -138,6 +138,8 @@ pub fn representatives() -> Vec<Case> {
         for good in ["\\n", "\\u{41}", "\\x41€", "\\u{20AC}\\\\", "\\\"é", "\\'", "\\0"] {
             out.push(Case::single(KIND, place(0, &fstring("", b, "€", good, "\""))));
             out.push(Case::single(KIND, place(0, &fstring("é{x}", b, "", good, "{{{x}}}\""))));
+            // the closing brace of `\u{…}` / an escaped quote right in front of a brace escape
+            out.push(Case::single(KIND, place(3, &fstring("", b, "", good, "}}\""))));
         }
     }
     // (5) the documented examples of the class
